@@ -38,9 +38,32 @@ type sharedFixtures struct {
 
 var fx *sharedFixtures
 
-func concOp(r *Rng, shared []byte) string {
+const concKinds = 16
+
+// the two messages of operation kind 15: the first cannot be encoded (its SECOND payload fails, after the first was
+// already written), the second is an ordinary message
+func failingThenValid(r *Rng) (bad, good *SX) {
+	first := genPayload(r, payloadKinds[r.Intn(len(payloadKinds))])
+	var second *SX
+	switch r.Intn(3) {
+	case 0:
+		second = L(A("d"), Nn(3), Nn(4), Nn(2), L(Nn(7))) // Delete: SPI count 2, one SPI
+	case 1:
+		second = L(A("eap"), Nn(1), Nn(9), L(A("identity"), Hx(nil))) // EAP-Identity without data
+	default:
+		second = L(A("sk"), Nn(0), Hx(nil)) // empty Encrypted payload
+	}
+	return L(A("msg"), genHeader(r), L(first, second)), genMessage(r)
+}
+
+func concOp(r0 *Rng, shared []byte) string {
+	kind := r0.Intn(concKinds)
+	r := r0.Fork() // every operation draws exactly twice from its goroutine's generator, so the checker can re-derive it
 	return run(func() string {
-		switch r.Intn(15) {
+		switch kind {
+		case 15: // an encoding that fails half-way, then an ordinary one (compared with the model afterwards)
+			bad, good := failingThenValid(r)
+			return "encode2:" + implEncode(bad) + implEncode(good)
 		case 12: // unprotect the shared protected datagram with an own SA object
 			if fx == nil || fx.sk == nil {
 				return "shared-unprotect:none"
@@ -261,6 +284,29 @@ func runC18(c *Ctx) error {
 				if got[g][s] != want[g][s] {
 					r.Add(Finding{Kind: "instance", What: "an operation returns a different result when run concurrently with unrelated operations (" + kind + ")",
 						Case: cs, Expected: want[g][s], Observed: got[g][s]})
+				}
+			}
+		}
+		// kind 15 has a prediction that does not come from the implementation: the model's
+		for g := 0; g < n; g++ {
+			gr := NewRng(seeds[g])
+			for s := 0; s < steps; s++ {
+				kind, sub := gr.Intn(concKinds), gr.Fork()
+				if kind != 15 {
+					continue
+				}
+				bad, good := failingThenValid(sub)
+				mb, err := c.M.Ask("(encode " + bad.String() + ")")
+				if err != nil {
+					return err
+				}
+				mg, err := c.M.Ask("(encode " + good.String() + ")")
+				if err != nil {
+					return err
+				}
+				if want := "encode2:" + mb + mg; got[g][s] != want {
+					r.Add(Finding{Kind: "instance", What: "an encoding returns different octets after an unrelated encoding failed (state kept between calls outside the objects passed in)",
+						Case: fmt.Sprintf("(encode-after-failed-encode %s %s)", bad, good), Expected: want, Observed: got[g][s]})
 				}
 			}
 		}
